@@ -82,16 +82,17 @@ def gen_clauses(rng, limit, n):
     return out
 
 
-def gen_dimacs_value(rng, fmt, ty, with_header=None):
+def gen_dimacs_value(rng, fmt, ty, with_header=None, ignored=False):
+    """ignored: the header will be ignored by the parser (ignore_header): it need not describe the clause list"""
     tmax = DIMACS_TYPES[ty]
     n = rng.choice([0, 1, 2, 3, 6, 12])
     with_header = rng.random() < 0.7 if with_header is None else with_header
     var_count = rng.choice([0, 3, 10, tmax, min(tmax, 1000)])
-    limit = var_count if (with_header and var_count) else tmax
+    limit = var_count if (with_header and var_count and not ignored) else tmax
     clauses = gen_clauses(rng, limit, n)
     val = {"fmt": fmt, "ty": ty, "header": None, "clauses": clauses}
     if with_header:
-        cc = rng.choice([0, n, n])
+        cc = rng.choice([0, n, n]) if not ignored else rng.choice([0, n, n + 1, max(0, n - 1), 1])
         h = {"var_count": var_count, "clause_count": cc}
         if fmt == "wcnf":
             h["top"] = rng.choice([0, 1, 100, U64])
@@ -101,7 +102,7 @@ def gen_dimacs_value(rng, fmt, ty, with_header=None):
     if fmt == "wcnf":
         val["weights"] = [rng.choice([0, 1, 7, U64, rng.randrange(0, 2 ** 40)]) for _ in clauses]
     if fmt == "gcnf":
-        gl = (val["header"] or {}).get("groups") or 2 ** 20
+        gl = ((val["header"] or {}).get("groups") if not ignored else None) or 2 ** 20
         val["groups"] = [rng.randrange(0, min(gl, 2 ** 62) + 1) for _ in clauses]
     return val
 
@@ -470,11 +471,11 @@ def gen_btor2_lines(rng, n=None):
         s = "%d %s" % (nid, body)
         r = rng.random()
         if r < 0.2:
-            s += " " + rng.choice(["sym", "a_name", "x[3]", "ü"])
+            s += " " + rng.choice(["sym", "a_name", "x[3]", "ü", "a;b", "top.a;b", "assert;", "x;;"])
             if rng.random() < 0.3:
-                s += " ;" + rng.choice(["", " trailing comment"])
+                s += " ;" + rng.choice(["", " trailing comment", " a;b ; c"])
         elif r < 0.3:
-            s += " ;" + rng.choice(["", " comment", "; double"])
+            s += " ;" + rng.choice(["", " comment", "; double", " x;y"])
         lines.append(s)
     return lines
 
@@ -545,10 +546,11 @@ def gen_doc(rng, parser=None, valid_only=False):
     parser = parser or rng.choice(PARSERS)
     if parser in ("cnf", "wcnf", "gcnf"):
         ty = rng.choice(list(DIMACS_TYPES))
-        val = gen_dimacs_value(rng, parser, ty)
-        data, _ = render_dimacs(rng, val, fancy=rng.random() < 0.7)
         flags = "h" if rng.random() < 0.25 else "-"
-        exp = dimacs_trace(val) if flags == "-" else None
+        # with ignore_header the header need not describe the clause list (counts, variable and group limits are not enforced)
+        val = gen_dimacs_value(rng, parser, ty, ignored=(flags == "h" and rng.random() < 0.7))
+        data, _ = render_dimacs(rng, val, fancy=rng.random() < 0.7)
+        exp = dimacs_trace(val)
     elif parser == "log":
         ty = rng.choice(list(DIMACS_TYPES))
         val = gen_log_value(rng, ty)
